@@ -162,7 +162,8 @@ PANIC_EXACT_SUFFIX = (
     "Result::<T, E>::unwrap_err", "Result::<T, E>::expect_err",
     "::split_at", "::split_at_mut", "::copy_from_slice", "::clone_from_slice", "::swap", "::rotate_left", "::rotate_right",
     "Vec::<T, A>::remove", "Vec::<T, A>::insert", "Vec::<T, A>::swap_remove", "Vec::<T, A>::drain", "Vec::<T, A>::split_off",
-    "String::remove", "String::insert", "String::drain", "String::split_off", "String::insert_str",
+    "String::remove", "String::insert", "String::drain", "String::split_off", "String::insert_str", "String::truncate", "String::replace_range",
+    "Duration::from_secs_f64", "Duration::from_secs_f32",
     "SmallVec::<A>::remove", "SmallVec::<A>::insert", "SmallVec::<A>::swap_remove", "SmallVec::<A>::drain",
     "RefCell::<T>::borrow", "RefCell::<T>::borrow_mut",
     "::chunks", "::chunks_exact", "::chunks_mut", "::chunks_exact_mut", "::windows",
